@@ -25,7 +25,7 @@ for name in sorted(res):
         sig = sig.split(':/')[0].split(':')[0] + ':src/' + sig.split('/src/')[-1] if not sig.startswith('history') else 'history-dependent:...src/' + sig.split('/src/')[-1]
     summ = m['summary'].replace('|', '/').replace('\n', ' ')
     n += 1
-    if m['detection_history'] == 'detected at first run': init += 1
+    if m['detection_history'].startswith('detected at first run'): init += 1
     if m['detection_history'].startswith('NOT'): bydesign += 1
     if best is not None: det += 1
     rows.append(f"| {name} | {pr} | {summ[:140]}{'...' if len(summ) > 140 else ''} | {'detected by ' + who if best else 'not detected'} `{sig}` | {m['detection_history']} |")
